@@ -654,9 +654,61 @@ def r2_capabilities(ctx) -> None:
                         cands = [x for x in cands if (x == b) == pol]
                 return bool(cands)
 
+            # facts that hold on *each* path to the call without dominating it (the call after an if/elif whose branches fall
+            # through or return): a callee class is infeasible if every path excludes it
+            path_facts: list[list[tuple[str, bool, bool]]] = []
+            if isinstance(c.func, ast.Attribute) and isinstance(c.func.value, ast.Name):
+                fcfg_ = cfg_of(fi)
+                starts_ = fcfg_.node_of_expr(c, prog.parent)
+                rn_ = c.func.value.id
+
+                def facts_of(t_, pol_):
+                    tt, pp = t_, pol_
+                    out_ = []
+                    while isinstance(tt, ast.UnaryOp) and isinstance(tt.op, ast.Not):
+                        tt, pp = tt.operand, not pp
+                    if isinstance(tt, ast.Call) and call_name(tt) == "issubclass" and len(tt.args) == 2 and unparse(tt.args[0]) == rn_:
+                        b_ = _resolve_class(ctx, fi, tt.args[1])
+                        if b_:
+                            out_.append((b_, True, pp))
+                    if isinstance(tt, ast.Compare) and len(tt.ops) == 1 and isinstance(tt.ops[0], (ast.Is, ast.IsNot)) and unparse(tt.left) == rn_:
+                        b_ = _resolve_class(ctx, fi, tt.comparators[0])
+                        if b_:
+                            out_.append((b_, False, pp if isinstance(tt.ops[0], ast.Is) else not pp))
+                    return out_
+                n_paths = 0
+                stack_ = [(s_, [], frozenset()) for s_ in starts_]
+                while stack_ and n_paths < 64:
+                    nid_, acc_, seen_ = stack_.pop()
+                    node_ = fcfg_.nodes[nid_]
+                    if nid_ in seen_:
+                        continue
+                    if node_.kind == "branch" and node_.ast is not None:
+                        acc_ = acc_ + facts_of(node_.ast, bool(node_.polarity))
+                    if node_.kind == "entry" or not node_.pred:
+                        path_facts.append(acc_)
+                        n_paths += 1
+                        continue
+                    for p_ in node_.pred:
+                        stack_.append((p_, acc_, seen_ | {nid_}))
+                if stack_:      # too many paths: no path-wise refinement
+                    path_facts = []
+
+            def feasible_on(owner: str, facts) -> bool:
+                cands = [x for x in prog.subclasses(owner) if (prog.lookup_method(x, c.func.attr) or None) is not None
+                         and prog.lookup_method(x, c.func.attr).cls.qual == owner] if isinstance(c.func, ast.Attribute) else [owner]
+                for b, is_sub, pol in facts:
+                    if is_sub:
+                        cands = [x for x in cands if prog.is_subclass(x, b) == pol]
+                    else:
+                        cands = [x for x in cands if (x == b) == pol]
+                return bool(cands)
+
             for callee in site.callees:
                 cf = prog.funcs.get(callee)
                 if cf is not None and cf.cls is not None and excluded and not feasible(cf.cls.qual):
+                    continue
+                if cf is not None and cf.cls is not None and path_facts and not any(feasible_on(cf.cls.qual, pf_) for pf_ in path_facts):
                     continue
                 if cf is not None and "vars_allowed_paths" in cf.params():
                     accepts.append(cf)
